@@ -52,21 +52,23 @@ Check exp_series : forall z : C,
   (forall l : C, cconv (cpsum (fun n => RtoC (/ INR (fact n))) z) l -> l = cexp z).
 Print Assumptions exp_series.
 
-(* the exponential series converges absolutely (sum |z^n/n!| = exp |z|); truncation error after N terms is at most the
-   tail of the real series at |z|, which tends to 0 *)
+(* the exponential series converges absolutely (sum |z^n/n!| = exp |z|); the truncation error after the term N is at most
+   the tail of the real series at |z|, which is at most |z|^(N+1)/(N+1)! * exp |z|, which tends to 0 *)
 Theorem exp_series_absolute : forall z : C,
   infinite_sum (fun n => cabs (cmul (RtoC (/ INR (fact n))) (cpown z n))) (exp (cabs z)) /\
   (forall N : nat,
      cabs (csub (cexp z) (cpsum (fun n => RtoC (/ INR (fact n))) z N))
-     <= exp (cabs z) - sum_f_R0 (fun n => / INR (fact n) * cabs z ^ n) N) /\
-  Un_cv (fun N => exp (cabs z) - sum_f_R0 (fun n => / INR (fact n) * cabs z ^ n) N) 0.
+     <= exp (cabs z) - sum_f_R0 (fun n => / INR (fact n) * cabs z ^ n) N
+     <= cabs z ^ S N / INR (fact (S N)) * exp (cabs z)) /\
+  Un_cv (fun N => cabs z ^ S N / INR (fact (S N)) * exp (cabs z)) 0.
 Proof. exact exp_series_absolute_lemma. Qed.
 Check exp_series_absolute : forall z : C,
   infinite_sum (fun n => cabs (cmul (RtoC (/ INR (fact n))) (cpown z n))) (exp (cabs z)) /\
   (forall N : nat,
      cabs (csub (cexp z) (cpsum (fun n => RtoC (/ INR (fact n))) z N))
-     <= exp (cabs z) - sum_f_R0 (fun n => / INR (fact n) * cabs z ^ n) N) /\
-  Un_cv (fun N => exp (cabs z) - sum_f_R0 (fun n => / INR (fact n) * cabs z ^ n) N) 0.
+     <= exp (cabs z) - sum_f_R0 (fun n => / INR (fact n) * cabs z ^ n) N
+     <= cabs z ^ S N / INR (fact (S N)) * exp (cabs z)) /\
+  Un_cv (fun N => cabs z ^ S N / INR (fact (S N)) * exp (cabs z)) 0.
 Print Assumptions exp_series_absolute.
 
 (* sinh z = sum_n z^(2n+1)/(2n+1)!,  cosh z = sum_n z^(2n)/(2n)! *)
